@@ -173,6 +173,15 @@ prop("C12",
      note=NETWORLD + "; 'on time' is a statement about virtual time")
 
 
+prop("C05",
+     title="In-flight operations never share a message ID; IDs stay within 1..2^31-1",
+     rule="wrap lane: for every subset of {1,2,3,4,MAX-3,MAX-2,MAX-1,MAX} (256 patterns) real pending operations are parked on exactly those IDs (single operations the server never answers, or streaming searches that have already received 0-2 entries and are kept open; the counter is positioned with hook H2 before each), then the counter is positioned at MAX-k for every k in 0..=8 and 2k+8 operations are issued, some answered, some left pending; every request's wire ID must lie in 1..=2^31-1, differ from every outstanding ID and equal the choice of a reference allocator (last+1, wrap MAX->1, skip in-use) run in lock step, and the library's ID table (H2) must equal the model's after every step. threads lane: 4-48 tasks on cloned handles on a multi-thread tokio runtime with 2-8 real worker threads issue server-answered and locally completing operations; the server holds replies until many requests are outstanding and releases them in one burst in random order so that all waiting tasks allocate at the same moment; it checks every arriving ID against the set of requests it has not yet answered (a third of the cases start just below the wrap point). Miri lane (thorough): the threads lane at tiny size under Miri's data-race detector and preemptive scheduler. non-trivial = cases whose allocations crossed the wrap point / all threaded cases",
+     claim="held on every enumerated wrap pattern and every threaded run of this execution; exhaustive over the 256 x 9 parked-pattern/position grid; concurrency evidence lists requests checked and the peak number of simultaneously outstanding operations observed",
+     design="3/C05", technique="lock-step executable allocator model over the wire log + H2 table; interval-overlap check at the server under real multi-threading; Miri race detector",
+     note=NETWORLD + "; the threads lane uses real time and real OS threads (no paused clock)")
+EXTRA_LANES["C05"] = [miri_lane()]
+
+
 # ---- properties not (yet) claimed ----
 def _na():
     out = []
